@@ -1,0 +1,23 @@
+//go:build verif
+
+// Copyright 2026 The Scriggo Authors. All rights reserved.
+// Use of this source code is governed by a BSD-style
+// license that can be found in the LICENSE file.
+
+// Package c18 is a verification bridge (build tag "verif") that exposes the
+// unexported function rooted and the function ValidTemplatePath of
+// internal/compiler to the external correspondence harness of property C18.
+// It adds no behaviour.
+package c18
+
+import "github.com/open2b/scriggo/internal/compiler"
+
+// Rooted calls compiler.rooted.
+func Rooted(parent, name string) (string, error) {
+	return compiler.VerifC18Rooted(parent, name)
+}
+
+// ValidTemplatePath calls compiler.ValidTemplatePath.
+func ValidTemplatePath(path string) bool {
+	return compiler.VerifC18ValidTemplatePath(path)
+}
